@@ -81,7 +81,7 @@ def main():
                         broken.append({'query': q.name, 'error': 'counterexample for "%s" did not reproduce on the real code (encoding or stub wrong?) stream=%s' % (ce['desc'], ce['stream_file'])})
                         print('BROKEN %s: unreproduced counterexample %s' % (q.name, ce['desc']), flush=True)
     # persist counterexample streams under /verif/evidence/replay
-    rdir = os.path.join(VERIF, 'evidence', 'replay'); os.makedirs(rdir, exist_ok=True)
+    rdir = os.environ.get('VERIF_REPLAY_DIR') or os.path.join(VERIF, 'evidence', 'replay'); os.makedirs(rdir, exist_ok=True)
     for (qn, ce, k) in known_hits:
         print('KNOWN-FINDING: property=%s %s [query %s: %s]' % (pid, k['text'], qn, ce['desc']))
     for (qn, ce) in violations:
